@@ -60,6 +60,33 @@ def handle (line : String) : String :=
       let l := UInt8.ofNat last
       toHex (encHead cfg k seq len l) ++ " " ++ (if k = .full then "-" else toHex (encTail cfg crc32 k rnd [] l))
     | _, _, _, _, _ => "bad-op"
+  | ["session", k, seq, ops] =>
+    -- ops: `rnd:payload,…` with payload `-` (empty), hex, or `z<n>` (n zero bytes)
+    let parseP (w : String) : Option Bytes :=
+      match w.toList with
+      | 'z' :: r => (String.ofList r).toNat?.map fun n => List.replicate n 0
+      | _ => ofHex w
+    let parseOp (w : String) : Option (Bytes × Bytes) :=
+      match w.splitOn ":" with
+      | [r, p] => do pure ((← ofHex r), (← parseP p))
+      | _ => none
+    match Kind.ofTag k, seq.toInt?, (ops.splitOn ",").mapM parseOp with
+    | some k, some seq, some ops =>
+      let (outs, fin) := writeSession cfg crc32 k seq ops
+      let show1 (o : Except WErr Bytes) : String := match o with
+        | .ok b => "ok:" ++ toHex b
+        | .error e => "err:" ++ e.tag
+      -- only the full protocol has a counter
+      ",".intercalate (outs.map show1) ++ (if k = .full then s!" seq={fin}" else "")
+    | _, _, _ => "bad-op"
+  | ["read", k, seq, h] =>
+    match Kind.ofTag k, seq.toInt?, ofHex h with
+    | some k, some seq, some s =>
+      match (read cfg crc32 k seq s).out with
+      | .ok f rest => s!"ok {toHex f} {rest.length}"
+      | .err e => "err " ++ e.tag
+      | .panic _ => "panic"
+    | _, _, _ => "bad-op"
   | ["rdhdr", k, h] =>
     match Kind.ofTag k, ofHex h with
     | some k, some s => match readHeader cfg k s with
